@@ -14,9 +14,9 @@ Shapes(inc, comp) == {
   G("polygon", <<0, 16, 16, 0>>, <<0, 0, 12, 12>>, <<>>, 0, inc, comp)}          \* axis-aligned box: the last edge is horizontal
 Unsupported == {[cls |-> "line"], [cls |-> "text"], [cls |-> "rannulus"], [cls |-> "compound"], [cls |-> "sky"]}
 NC == -1
-PoolQuick == UNION {Shapes(inc, comp) : inc \in {"absent", "F", "0", "T"}, comp \in {NC, 3}} \cup Unsupported
-PoolSmall == UNION {Shapes(inc, comp) : inc \in {"absent", "F"}, comp \in {NC, 3, 7}} \cup {[cls |-> "line"], [cls |-> "sky"]}
-PoolTiny == Shapes("absent", NC) \cup Shapes("0", 5) \cup {[cls |-> "compound"]}
+PoolQuick == UNION {Shapes(inc, comp) : inc \in {"absent", "F", "0", "T"}, comp \in {NC, 0, 3}} \cup Unsupported          \* component 0 is a given number
+PoolSmall == UNION {Shapes(inc, comp) : inc \in {"absent", "F"}, comp \in {NC, 0, 7}} \cup {[cls |-> "line"], [cls |-> "sky"]}
+PoolTiny == Shapes("absent", NC) \cup Shapes("0", 5) \cup Shapes("absent", 0) \cup {[cls |-> "compound"]}
 NoDev == {}
 CodeDev == {"BangBeforeMap"}
 =============================================================================
